@@ -53,6 +53,8 @@ impl<'a> SegmentIndexBuilder<'a> {
             }
         };
 
+        #[cfg(sneldb_verif)]
+        crate::verif_hooks::vp("idx_loaded");
         // Append entry
         segment_index.insert_entry(entry);
         debug!(target: "segment_index_builder::add_segment_entry", "Inserted new segment entry");
